@@ -22,10 +22,10 @@ class Decoder1b(Decoder):
         data = bytearray(width * h)
         
         # The compressed data with must be divisible by 16
-        inc = (16 - ((w - padding_w)%16))%16
-        if w - padding_w + inc > width:
-            inc = 0
-        w = w - padding_w + inc
+        # pixels of the image in a row (the stored row ends with pad bits)
+        iw = w - padding_w
+        inc = (16 - (iw%16))%16
+        w = iw + inc
         logging.debug("w=%d, inc=%d", w, inc)
         
         x = 0
@@ -55,8 +55,9 @@ class Decoder1b(Decoder):
                                           +"(x=%s y=%s col=%s)", x, y, bitval)
                             break
                         
-                        p = y*width + x + padding_w
-                        data[p] = bitval
+                        if x < iw:
+                            p = y*width + x + padding_w
+                            data[p] = bitval
                         x += 1
                 
                 if x >= w:
@@ -83,8 +84,9 @@ class Decoder1b(Decoder):
                                           bitval)
                             break
                         
-                        p = y*width + x + padding_w
-                        data[p] = bitval
+                        if x < iw:
+                            p = y*width + x + padding_w
+                            data[p] = bitval
                         x += 1
     
                     idx = idx + 1
